@@ -1,0 +1,95 @@
+//go:build verif
+
+package policer
+
+import (
+	"context"
+
+	iec "github.com/nspcc-dev/neofs-node/internal/ec"
+	objectcore "github.com/nspcc-dev/neofs-node/pkg/core/object"
+	"github.com/nspcc-dev/neofs-node/pkg/local_object_storage/engine"
+	"github.com/nspcc-dev/neofs-node/pkg/services/replicator"
+	cid "github.com/nspcc-dev/neofs-sdk-go/container/id"
+	neofscrypto "github.com/nspcc-dev/neofs-sdk-go/crypto"
+	"github.com/nspcc-dev/neofs-sdk-go/netmap"
+	"github.com/nspcc-dev/neofs-sdk-go/object"
+	oid "github.com/nspcc-dev/neofs-sdk-go/object/id"
+)
+
+// This file exists for the model-based verification harness kept outside the
+// repository (build tag `verif`). It only re-exports what the in-package tests
+// reach directly: a constructor accepting fakes for the unexported dependency
+// interfaces, and the per-object decision entry point.
+
+// VerifECRule mirrors internal/ec.Rule for callers outside the module tree.
+type VerifECRule struct {
+	DataPartNum   uint8
+	ParityPartNum uint8
+}
+
+// VerifNetwork is [Network] without internal types in its signature.
+type VerifNetwork interface {
+	IsLocalNodeInNetmap() bool
+	GetNodesForObject(oid.Address) (nodeLists [][]netmap.NodeInfo, repRules []uint, ecRules []VerifECRule, err error)
+	IsLocalNodePublicKey([]byte) bool
+}
+
+// VerifStorage is the local storage interface of [Policer] without internal
+// types in its signature.
+type VerifStorage interface {
+	ListWithCursor(context.Context, uint32, *engine.Cursor, ...string) ([]objectcore.AddressWithAttributes, *engine.Cursor, error)
+	Delete(context.Context, oid.Address, engine.GarbageMark) error
+	DeleteRedundantCopies(context.Context, oid.Address, []string) error
+	Put(context.Context, *object.Object, []byte) error
+	Head(context.Context, oid.Address, bool) (*object.Object, error)
+	HeadECPart(ctx context.Context, cnr cid.ID, parent oid.ID, ruleIdx, partIdx int) (object.Object, error)
+	GetRange(context.Context, oid.Address, uint64, uint64) ([]byte, error)
+}
+
+// VerifReplicator is the replicator interface of [Policer].
+type VerifReplicator interface {
+	HandleTask(context.Context, replicator.Task, replicator.TaskResult)
+}
+
+type verifNetwork struct{ VerifNetwork }
+
+func (x verifNetwork) GetNodesForObject(addr oid.Address) ([][]netmap.NodeInfo, []uint, []iec.Rule, error) {
+	nn, rep, ec, err := x.VerifNetwork.GetNodesForObject(addr)
+	var rules []iec.Rule
+	if ec != nil {
+		rules = make([]iec.Rule, len(ec))
+		for i := range ec {
+			rules[i] = iec.Rule{DataPartNum: ec[i].DataPartNum, ParityPartNum: ec[i].ParityPartNum}
+		}
+	}
+	return nn, rep, rules, err
+}
+
+type verifStorage struct{ VerifStorage }
+
+func (x verifStorage) HeadECPart(ctx context.Context, cnr cid.ID, parent oid.ID, pi iec.PartInfo) (object.Object, error) {
+	return x.VerifStorage.HeadECPart(ctx, cnr, parent, pi.RuleIndex, pi.Index)
+}
+
+// NewForVerif builds a [Policer] like [New] and then substitutes the network,
+// the local storage and (if not nil) the replicator with the given
+// implementations. Remote header source is set through [WithRemoteHeader].
+func NewForVerif(signer neofscrypto.Signer, net VerifNetwork, st VerifStorage, repl VerifReplicator, opts ...Option) *Policer {
+	p := New(signer, opts...)
+	if net != nil {
+		p.network = verifNetwork{net}
+	}
+	if st != nil {
+		p.localStorage = verifStorage{st}
+	}
+	if repl != nil {
+		p.replicator = repl
+	}
+	return p
+}
+
+// VerifProcessObject runs one policy check of a locally stored object exactly
+// as the background worker does for every listed object.
+func (p *Policer) VerifProcessObject(ctx context.Context, obj objectcore.AddressWithAttributes) {
+	p.processObject(ctx, obj)
+}
